@@ -4,7 +4,7 @@ MCTextPool == { <<"alnum">> }
 MCBytePool == {}
 PatchSchemas == {"Ent", "Leaf"}
 \* $delete documents naming ONE field, deletable or not, own or inherited through one or two includes
-DeleteSchemas == {"Ent", "Leaf", "IncMid", "IncTop", "SibG", "OptDef"}
+DeleteSchemas == {"Ent", "Leaf", "IncMid", "IncTop", "IncEmpty", "SibG", "OptDef"}
 ExclPool == { {}, { <<"id">> }, { <<"nested", "b">> }, { <<"created">>, <<"id">> }, { <<"nested">> }, { <<"id">>, <<"nested", "b">> } }
 Unions == {n \in SchemaNames : SchemaOf[n].k = "union"}
 Aliases(n) == {SchemaOf[n].members[i].a : i \in DOMAIN SchemaOf[n].members}
